@@ -12,6 +12,10 @@ import time
 VERIF = os.path.dirname(os.path.dirname(os.path.abspath(__file__)))
 LEAN = os.path.join(VERIF, "lean")
 EVID = os.path.join(VERIF, "evidence")
+if os.environ.get("FV_REPO") and os.path.realpath(os.environ["FV_REPO"]) != os.path.realpath("/repo"):
+    # a development run against a scratch copy of the repository (tools/seeded.py): its evidence
+    # and replay files must never replace the ones that describe /repo itself
+    EVID = os.path.join("/tmp", "fv_scratch_evidence")
 REPLAYS = os.path.join(VERIF, "replays")
 KNOWN = os.path.join(VERIF, "known_findings.json")
 PY = "/venv/bin/python"
